@@ -153,7 +153,12 @@ def shard(ctx):
             strings.append(a)
             tags.append("alias")
         for p in spec.get("wildcards", []):
-            for suf in ["abc", "", "x.y", "é", "*", " ", "key.nested", "A" * 40]:
+            sufs = ["abc", "", "x.y", "é", "*", " ", "key.nested", "A" * 40]
+            # suffixes built from the enum's own vocabulary: the prefix again (once, twice, cut),
+            # other spellings, separators
+            sufs += [p, p + "abc", p + p + "k", p[:-1], p[1:], p[:len(p) // 2] + "z", "." + p, p.upper() + "k", ".", "..", "m.", "m"]
+            sufs += rng.sample(list(spec["spellings"]), min(4, len(spec["spellings"]))) + rng.sample(all_spellings, 4)
+            for suf in sufs:
                 strings.append(p + suf)
                 tags.append("wildcard")
         for s in list(spec["spellings"]) + list(spec.get("aliases", {})):
